@@ -384,6 +384,17 @@ func CheckC04(run *ev.Run) {
 			}
 			for field, p := range specOf {
 				if _, ok := given[field]; !ok {
+					if p.Default != nil {
+						// an omitted parameter with a default: whichever side applies it, the handler must hold exactly the spec's default
+						if got := seen[field]; !reflect.DeepEqual(got, p.Default) {
+							st["DEFAULT-DIFFERS"]++
+							replay["field"] = field
+							run.Deviation("omitted-param-default-differs:"+p.In, fmt.Sprintf("parameter %s was not given to the client; its default is %v but the handler received %v", field, p.Default, got), replay)
+						} else {
+							st["default-applied"]++
+						}
+						continue
+					}
 					if got := seen[field]; got != nil && !zeroLike(got) && !reflect.DeepEqual(got, []interface{}{}) {
 						st["OMITTED-NOT-ABSENT"]++
 						replay["field"] = field
